@@ -82,7 +82,8 @@ CheckProbe(e) ==       \* a simulation of one input of a system, judged on the r
     /\ IF C06 /\ Len(e.recomputed) # e.n_values_to_recompute
        THEN Fail(e, "recomputed-values-count-differs", <<Len(e.recomputed), e.n_values_to_recompute>>) ELSE TRUE
     /\ IF C06 /\ e.all_ups_active /\ \E n \in DOMAIN e.recomputed : e.recomputed[n].min_hour >= 0 /\ e.recomputed[n].min_hour < e.date_hour
-       THEN Fail(e, "simulated-series-has-hour-before-the-date",
+       THEN Fail(e, IF e.timeline_shifted THEN "simulated-series-has-hour-before-the-date(usage-pattern-moved-to-another-time-zone)"
+                    ELSE "simulated-series-has-hour-before-the-date",
                  {<<e.recomputed[n].slot, e.recomputed[n].min_hour>> : n \in {m \in DOMAIN e.recomputed :
                       e.recomputed[m].min_hour >= 0 /\ e.recomputed[m].min_hour < e.date_hour}}) ELSE TRUE
 
